@@ -459,6 +459,27 @@ pub fn gen_long_session(rng: &mut Rng) -> Vec<AbsResp> {
         .collect()
 }
 
+/// A big listing: hundreds to thousands of short lines in one response (what `playlistinfo`
+/// or `listall` return) — a single frame, or spread over a few frames of a list reply.
+pub fn gen_listing(rng: &mut Rng) -> AbsResp {
+    let n = *rng.pick(&[513usize, 600, 1025, 2049, 4000]);
+    let field = |rng: &mut Rng| AbsItem::Field(gen_key(rng), gen_value(rng, SizeClass::Tiny));
+    if rng.chance(2, 3) {
+        AbsResp::Single(AbsFrame {
+            items: (0..n).map(|_| field(rng)).collect(),
+        })
+    } else {
+        let k = rng.urange(2, 4);
+        AbsResp::List(
+            (0..k)
+                .map(|_| AbsFrame {
+                    items: (0..n / k).map(|_| field(rng)).collect(),
+                })
+                .collect(),
+        )
+    }
+}
+
 pub fn gen_session(rng: &mut Rng, class: SizeClass) -> Vec<AbsResp> {
     let n = match rng.below(10) {
         0 => 0,
@@ -466,7 +487,12 @@ pub fn gen_session(rng: &mut Rng, class: SizeClass) -> Vec<AbsResp> {
         5..=7 => rng.urange(2, 3),
         _ => rng.urange(3, 8),
     };
-    (0..n).map(|_| gen_resp(rng, class)).collect()
+    let mut s: Vec<AbsResp> = (0..n).map(|_| gen_resp(rng, class)).collect();
+    if rng.chance(1, 40) {
+        let at = rng.urange(0, s.len());
+        s.insert(at, gen_listing(rng));
+    }
+    s
 }
 
 /// Make the encoded body (everything after the greeting) end exactly at, one short of, or one
